@@ -1,4 +1,5 @@
 import Snel.Lemmas.ShardDirs
+import Snel.Lemmas.ShardIndexed
 /-! C01, clean-shutdown clause: after `flush_all` + stop + restart every applied event is
 visible, for any history whose restarts are all clean. -/
 namespace Snel.Shard
@@ -245,7 +246,10 @@ theorem drain_mem (n : Nat) : ∀ (s : Shard), (drain n s).mem = s.mem := by
         · split <;> simp [walClean]
 
 /-- After a clean shutdown and restart every covered event is still covered. -/
-theorem shutdown_cover {s : Shard} (h : Inv s) (h3 : Inv3 s) (e : Ev) (he : Cover s e) :
+theorem shutdown_indexed {s : Shard} (hI : Indexed s) : Indexed (shutdown s) :=
+  drain_indexed _ (rotate_indexed (drain_indexed _ hI))
+
+theorem shutdown_cover {s : Shard} (h : Inv s) (h3 : Inv3 s) (hI : Indexed s) (e : Ev) (he : Cover s e) :
     Cover (restart (crash (shutdown s))) e := by
   -- state just before the process exits
   have a1 := drain_inv_cover (jobSteps * s.jobs.length + 1) h
@@ -267,9 +271,16 @@ theorem shutdown_cover {s : Shard} (h : Inv s) (h3 : Inv3 s) (e : Ev) (he : Cove
     rw [hjobs] at hj; simp at hj
   · obtain ⟨q, hq, hqid, hqe⟩ := mem_segRows.mp hrow
     refine Or.inr (Or.inr ⟨q.1, ?_, ?_⟩)
-    · simp only [restart, crash]
-      rw [mem_sortNat, List.mem_eraseDups, List.mem_map]
-      exact ⟨q, hq, rfl⟩
+    · have hl : (restart (crash (shutdown s))).live
+          = published (crash (shutdown s)) (sortNat (((crash (shutdown s)).segs.map (·.1)).eraseDups)) := by
+        simp [restart]
+      rw [hl, mem_published]
+      refine ⟨?_, ?_⟩
+      · simp only [crash]
+        rw [mem_sortNat, List.mem_eraseDups, List.mem_map]
+        exact ⟨q, hq, rfl⟩
+      · have := indexed_served (shutdown_indexed hI) hjobs q hq
+        simpa [Served, crash] using this
     · rw [mem_segRows]; exact ⟨q, by simpa [restart, crash] using hq, rfl, hqe⟩
 
 theorem restart_inv3 (s : Shard) : Inv3 (restart (crash s)) := by
@@ -280,28 +291,31 @@ def Op.noKill : Op → Bool
   | .crash => false
   | _ => true
 
-theorem runOps_clean (ops : List Op) : ∀ {s : Shard}, Inv s → Inv3 s → (∀ o ∈ ops, o.noKill = true) →
+theorem runOps_clean (ops : List Op) : ∀ {s : Shard}, Inv s → Inv3 s → Indexed s → (∀ o ∈ ops, o.noKill = true) →
     Inv (runOps s ops) ∧ Inv3 (runOps s ops) ∧ (∀ e, Cover s e → Cover (runOps s ops) e) ∧
     ∀ e ∈ storedEvents ops, Cover (runOps s ops) e := by
   induction ops with
-  | nil => intro s h h3 _; exact ⟨h, h3, fun _ he => he, by simp [storedEvents]⟩
+  | nil => intro s h h3 _ _; exact ⟨h, h3, fun _ he => he, by simp [storedEvents]⟩
   | cons o ops ih =>
-    intro s h h3 hall
+    intro s h h3 hI hall
     have ho := hall o (by simp)
-    have hstep : Inv (step s o) ∧ Inv3 (step s o) ∧ ∀ e, Cover s e → Cover (step s o) e := by
+    have hstep : Inv (step s o) ∧ Inv3 (step s o) ∧ Indexed (step s o) ∧ ∀ e, Cover s e → Cover (step s o) e := by
       cases o with
-      | store e => exact ⟨store_inv e h, store_inv3 e h h3, fun x hx => store_cover_old e x hx⟩
+      | store e => exact ⟨store_inv e h, store_inv3 e h h3, store_indexed e hI, fun x hx => store_cover_old e x hx⟩
       | flushCmd =>
         have b1 := rotate_inv h
         have c := drain_inv_cover (jobSteps * (flushCmd s).jobs.length + 1) (s := flushCmd s) b1
-        exact ⟨c.1, drain_inv3 _ b1 (rotate_inv3 h h3), fun e he => c.2 e (rotate_cover he)⟩
+        exact ⟨c.1, drain_inv3 _ b1 (rotate_inv3 h h3), drain_indexed _ (rotate_indexed hI),
+          fun e he => c.2 e (rotate_cover he)⟩
       | flushStep =>
-        exact ⟨(flushStep_inv_cover h).1, flushStep_inv3 h h3, (flushStep_inv_cover h).2⟩
-      | drain => exact ⟨(drain_inv_cover _ h).1, drain_inv3 _ h h3, (drain_inv_cover _ h).2⟩
+        exact ⟨(flushStep_inv_cover h).1, flushStep_inv3 h h3, flushStep_indexed hI, (flushStep_inv_cover h).2⟩
+      | drain => exact ⟨(drain_inv_cover _ h).1, drain_inv3 _ h h3, drain_indexed _ hI, (drain_inv_cover _ h).2⟩
       | crash => simp [Op.noKill] at ho
-      | shutdown => exact ⟨restart_inv _, restart_inv3 _, fun e he => shutdown_cover h h3 e he⟩
-    obtain ⟨h1, h31, c1⟩ := hstep
-    obtain ⟨h2, h32, c2, c3⟩ := ih h1 h31 (fun x hx => hall x (by simp [hx]))
+      | shutdown =>
+        exact ⟨restart_inv _, restart_inv3 _, restart_indexed (shutdown_indexed hI) (drainAll_jobs_nil _),
+          fun e he => shutdown_cover h h3 hI e he⟩
+    obtain ⟨h1, h31, hI1, c1⟩ := hstep
+    obtain ⟨h2, h32, c2, c3⟩ := ih h1 h31 hI1 (fun x hx => hall x (by simp [hx]))
     have hrun : runOps s (o :: ops) = runOps (step s o) ops := by simp [runOps]
     rw [hrun]
     refine ⟨h2, h32, fun e he => c2 e (c1 e he), ?_⟩
